@@ -300,6 +300,60 @@ func c15Run(c *fw.Ctx) {
 			}
 		}
 	}
+	// 3b. interference between constructions: all services (and accessories) are built again, kept alive together,
+	// and each is inspected only after all the others exist
+	type kept struct {
+		name  string
+		svc   interface{}
+		types []string
+	}
+	var all []kept
+	for round := 0; round < 2; round++ {
+		for _, ct := range catalog.ServiceCtors {
+			v, err := ct.Build()
+			if err != nil || catalog.Svc(v) == nil {
+				continue
+			}
+			all = append(all, kept{name: ct.Name, svc: v})
+		}
+		for _, ct := range catalog.AccessoryCtors {
+			if v, err := ct.Build(); err == nil && catalog.Acc(v) != nil {
+				for i, sv := range catalog.Acc(v).Services {
+					all = append(all, kept{name: fmt.Sprintf("%s.Services[%d]", ct.Name, i), svc: sv})
+				}
+			}
+		}
+	}
+	solo := map[string]string{}
+	for _, ct := range catalog.ServiceCtors {
+		if v, err := ct.Build(); err == nil && catalog.Svc(v) != nil {
+			var ts []string
+			for _, ch := range catalog.Svc(v).Characteristics {
+				ts = append(ts, ch.Type)
+			}
+			solo[ct.Name] = strings.Join(ts, ",") // inspected right after its own construction
+		}
+	}
+	for _, k := range all {
+		c.Eval(1)
+		sv := catalog.Svc(k.svc)
+		var ts []string
+		seen := map[string]bool{}
+		for _, ch := range sv.Characteristics {
+			if ch == nil {
+				rep("interference/nil-characteristic/"+k.name, k.name+": holds a nil characteristic once other services exist")
+				continue
+			}
+			if seen[ch.Type] {
+				rep("interference/duplicate-characteristic/"+k.name, fmt.Sprintf("%s: after other services were constructed it holds two characteristics of type %s", k.name, ch.Type))
+			}
+			seen[ch.Type] = true
+			ts = append(ts, ch.Type)
+		}
+		if want, ok := solo[k.name]; ok && want != strings.Join(ts, ",") {
+			rep("interference/characteristics-changed/"+k.name, fmt.Sprintf("%s: its characteristics are [%s] right after construction but [%s] once other services have been constructed", k.name, want, strings.Join(ts, ",")))
+		}
+	}
 	// 4. accessories
 	for _, ct := range catalog.AccessoryCtors {
 		c.Eval(1)
@@ -333,7 +387,7 @@ func init() {
 	fw.Register(&fw.Check{
 		ID:          "C15",
 		Level:       "exploration",
-		Rule:        "depth-1 exhaustive enumeration of the finite catalog: every exported New* constructor found by go/parser in /repo's characteristic, service and accessory packages at check time is called; every characteristic and service entry of gen/metadata.json is matched by type id and compared field by field (format, permissions, unit, min/max/step with case-insensitive keys, default value type and range, required characteristics, duplicate types, Type* constants). distinct_nontrivial = distinct constructors that returned a usable object",
+		Rule:        "depth-1 exhaustive enumeration of the finite catalog: every exported New* constructor found by go/parser in /repo's characteristic, service and accessory packages at check time is called; every characteristic and service entry of gen/metadata.json is matched by type id and compared field by field (format, permissions, unit, min/max/step with case-insensitive keys, default value type and range, required characteristics, duplicate types, Type* constants); all services and accessories are then constructed again, kept alive together and re-inspected (a constructor must not disturb objects built before it). distinct_nontrivial = distinct constructors that returned a usable object",
 		Shards:      func(string) int { return 1 },
 		Run:         c15Run,
 		Replay:      func(c *fw.Ctx, raw json.RawMessage) { c15Run(c) },
